@@ -741,9 +741,16 @@ class RawAlgorithmsMixIn:
         cls._amul(ybar_data, fprime_data, out=out)
 
     @classmethod
+    def _expit_fprime(cls, x_data):
+        # expit' = e/(1+e)**2 with e = exp(-x) is an even function of x: evaluate it with e = exp(-|x_0| ...),
+        # which cannot overflow and keeps the relative accuracy of both tails
+        s = numpy.where(numpy.real(x_data[0]) > 0, -1., 1.)
+        e_data = cls._exp(s * x_data)
+        return cls._mul(e_data, cls._square(cls._reciprocal(_plus_const(e_data, 1))))
+
+    @classmethod
     def _expit(cls, x_data, out=None):
-        b_data = cls._reciprocal(_plus_const(cls._exp(x_data), 1))
-        fprime_data = b_data - cls._square(b_data)
+        fprime_data = cls._expit_fprime(x_data)
         return _black_f_white_fprime(
                 scipy.special.expit, fprime_data, x_data, out=out)
 
@@ -751,8 +758,7 @@ class RawAlgorithmsMixIn:
     def _pb_expit(cls, ybar_data, x_data, y_data, out = None):
         if out is None:
             raise NotImplementedError('should implement that')
-        b_data = cls._reciprocal(_plus_const(cls._exp(x_data), 1))
-        fprime_data = b_data - cls._square(b_data)
+        fprime_data = cls._expit_fprime(x_data)
         cls._amul(ybar_data, fprime_data, out=out)
 
     @classmethod
